@@ -1355,7 +1355,7 @@ class Grid:
             The differentiated data
         """
         diff = self.diff(da, axis, **kwargs)
-        dx = self.get_metric(diff, (axis,))
+        dx = self.get_metric(diff, _maybe_promote_str_to_list(axis))
         return diff / dx
 
     def integrate(self, da, axis, **kwargs):
